@@ -3,6 +3,8 @@
 package gtab
 
 import (
+	"golang.org/x/text/language"
+
 	"seehuhn.de/go/postscript/funit"
 	"seehuhn.de/go/sfnt/glyph"
 	"seehuhn.de/go/sfnt/opentype/anchor"
@@ -313,5 +315,44 @@ func VerifH_C08_gpos2() {
 			Mark1Array: []markarray.Record{{Class: c0, Table: an("m0")}, {Class: c1, Table: an("m1")}},
 			Mark2Array: [][]anchor.Table{{an("b00"), an("b01")}, {an("b10"), an("b11")}}}
 		checkSubtable(x, 6, true)
+	}
+}
+
+// VerifH_C08_scriptlist: script lists with a solver-chosen subset of language systems (default and
+// language-specific entries of several scripts, in every combination) and symbolic required / optional
+// feature indices survive encode -> read unchanged.
+func VerifH_C08_scriptlist() {
+	tags := []language.Tag{ // tags in the normal form the reader produces
+		language.MustParse("und-Zzzz-x-dflt"),    // DFLT, default language system
+		language.MustParse("und-Cyrl-x-cyrl"),    // cyrl, default language system
+		language.MustParse("de-Latn-x-latn-deu"), // latn / DEU
+		language.MustParse("tr-Latn-x-latn-trk"), // latn / TRK
+		language.MustParse("und-Latn-x-latn"),    // latn, default language system
+	}
+	info := ScriptListInfo{}
+	for _, t := range tags {
+		if !verifBool("present") {
+			continue
+		}
+		ft := &Features{Required: FeatureIndex(verifU16("required"))}
+		for i := verifChoose("optional", 2); i > 0; i-- {
+			f1, f2 := FeatureIndex(verifU16("feature")), FeatureIndex(verifU16("feature"))
+			verifAssume(f1 != 0xFFFF && f2 != 0xFFFF) // 0xFFFF is "no feature": not a member of a feature index list
+			ft.Optional = append(ft.Optional, f1, f2)
+		}
+		info[t] = ft
+	}
+	verifAssume(len(info) > 0)
+	enc := info.encode()
+	got, err := readScriptList(verifParser(enc), 0)
+	verifAssert(err == nil, "own script list accepted")
+	if err != nil {
+		return
+	}
+	verifReach("read")
+	verifAssert(len(got) == len(info), "same language systems")
+	for t, ft := range info {
+		g := got[t]
+		verifAssert(g != nil && g.Required == ft.Required && verifSame(g.Optional, ft.Optional), "features of every language system survive")
 	}
 }
